@@ -180,7 +180,11 @@ pub fn render_access_list(al: &[([u8; 20], Vec<[u8; 32]>)], u: &mut U) -> J {
     J::Arr(
         al.iter()
             .map(|(a, slots)| {
-                let addr = if u.bool() { hex0x(a) } else { eip55(a) };
+                let addr = match u.below(4) {
+                    0 | 1 => hex0x(a),
+                    2 => eip55(a),
+                    _ => format!("0x{}", hex0x(a)[2..].to_uppercase()),
+                };
                 J::Arr(vec![J::Str(addr), J::Arr(slots.iter().map(|s| J::Str(hex0x(s))).collect())])
             })
             .collect(),
@@ -212,7 +216,14 @@ pub fn render_with(
         "null" => kv.push(("to".into(), J::Null)),
         _ => {
             let a = model.to.expect("address form has recipient");
-            kv.push(("to".into(), J::Str(if u.bool() { hex0x(&a) } else { eip55(&a) })));
+            kv.push((
+                "to".into(),
+                J::Str(match u.below(4) {
+                    0 | 1 => hex0x(&a),
+                    2 => eip55(&a),
+                    _ => format!("0x{}", hex0x(&a)[2..].to_uppercase()),
+                }),
+            ));
         }
     }
     kv.push(("value".into(), num("value", &model.value, u)));
